@@ -180,6 +180,8 @@ def _unary(interp, name, args, kw, st, node):
         term = T(base, x.term) if len(args) == 1 and not [k for k in kw if k != "out"] else T(base, x.term, *[a.term for a in args[1:]], *[T("kw", k, v.term) for k, v in sorted(kw.items()) if k != "out"])
     sh = shape(x)
     dtype = "bool" if base in ("isnan", "isfinite", "isinf", "logical_not") else None
+    if base == "spacing" and x.kind == "unk":
+        return V("float", term, shape=(), labels=x.labels)
     if x.kind == "arr" or sh not in ((), None):
         res = fresh_arr(term, sh, x.labels, dtype)
     elif x.kind in ("int", "float", "bool"):
@@ -302,7 +304,7 @@ def _reduction(opname, dtype=None, index=False):
         if opname in ("sum",) and x.extra == "bool":
             term = T("count", x.term) if at is None else term
         if rsh == () :
-            k = "int" if (index or (opname in ("sum",) and x.extra in ("bool", "int"))) else ("bool" if dt == "bool" else "float")
+            k = "int" if (index or opname == "count" or (opname in ("sum",) and x.extra in ("bool", "int"))) else ("bool" if dt == "bool" else "float")
             v = V(k if k != "float" else "arr", term, shape=(), labels=labels, orig=frozenset([FRESH]), loc=fresh_id())
             if index and sh is not None:
                 ax = axis_of(b.get("axis"), rank)
